@@ -62,3 +62,12 @@ package dns
 //@   requires r != nil && r.lex != nil && 1 <= r.si && r.si - 1 <= end && end <= len(r.s)
 //@   ensures r.eof && ret0 != nil
 //@   ensures frame: r.step == old(r.step) && r.start == old(r.start) && r.end == old(r.end) && r.si == old(r.si) && r.cur == old(r.cur) && len(r.s) == old(len(r.s)) && r.lex == old(r.lex)
+
+// the tokeniser's hand-grown token and comment buffers are never indexed out of range
+//@ func (*zlexer).Next [C07]
+//@   requires zl != nil
+//@   loop 1 invariant 0 <= stri && stri <= len(str) && 0 <= comi && comi <= len(com) && len(str) > 0 && len(com) > 0
+//@   exit sticky: old(zl.l.err) && old(zl.cachedL) == nil && !old(zl.nextL) ==> !ret1
+//@ func (*zlexer).readByte [C07]
+//@   opt no-safety
+//@   requires zl != nil
